@@ -18,7 +18,7 @@ RULE = (
     "(exhaustive), quick = all 65536 old words x new in {0,1,0x55,0x80,0xFF} x 4; (b) complete enumeration of visualization words with "
     "defined enumerated parts (15360 old words) x 6 sub-fields x every new value; (c) SMII always x channel 0..16 (+ wide) and SFGS 8x8 "
     "through save/load in both contexts, complete; (d) Hypothesis: notes over every NOTECMD x vel 0..129 x 16-bit fields, pattern byte "
-    "images of shapes up to 32 x 64 made of valid cells, through raw_data and through project save/load. distinct = triple / case hash; "
+    "images of shapes up to 32 x 64 made of valid cells, through raw_data and through project save/load, arriving on a fresh pattern or on one that was read / bulk-edited / had cells replaced / held another image before; every field of a decoded cell is re-assigned and the bytes must follow; cells of loaded patterns are edited. distinct = triple / case hash; "
     "non-trivial = old word whose target sub-field is already non-zero (setters), non-empty cell (notes/patterns)"
 )
 ASSUMPTIONS = [
